@@ -97,14 +97,17 @@ macro_rules! suite {
                 move |i| {
                     context(
                         "parsing srtp suite",
-                        alt((
+                        // take the whole token first, a known suite must not match as a
+                        // prefix of a longer (extension) suite name
+                        map(take_while1(is_alphanumeric_or_underscore), move |suite| {
                             $(
-                            map(tag(stringify!($suite)), |_| Self::$suite),
+                            if suite == stringify!($suite) {
+                                return Self::$suite;
+                            }
                             )*
-                            map(take_while1(is_alphanumeric_or_underscore), move |suite| {
-                                Self::Ext(BytesStr::from_parse(src, suite))
-                            }),
-                        )),
+
+                            Self::Ext(BytesStr::from_parse(src, suite))
+                        }),
                     )(i)
                 }
             }
